@@ -12,6 +12,7 @@ import (
 	"regexp"
 	"strconv"
 	"strings"
+	"time"
 
 	"golang.org/x/tools/go/ssa"
 
@@ -66,6 +67,7 @@ func cmdCheck(args []string) (code int) {
 		r.Unknown("LOAD", id, "load/analyse", "-", fmt.Sprint(err))
 		return r.Finish(*verif, known)
 	}
+	t0 := time.Now()
 	p, err := ir.Load(*repo)
 	if err != nil {
 		for _, id := range ids {
@@ -92,7 +94,13 @@ func cmdCheck(args []string) (code int) {
 		}
 		func() {
 			r := report.NewRun(id, *tier, seed)
+			r.Start = t0
 			r.Decides, r.NotDecided = ck.Decides, ck.NotDecided
+			r.Trusted = []string{"go/packages, go/types, go/ssa (golang.org/x/tools v0.50.0) and the go1.26.8 front end", "the obligation tables in /verif/checker/internal/props (derived from the property statements)",
+				"third-party code reached from nexus (gorilla/websocket, ugorji codec, deque, x/crypto) and user-supplied callbacks carry no obligations"}
+			r.Assume = []string{"default build configuration (linux/amd64, no build tags); thorough tier adds GOARCH=386",
+				"a structural necessary condition is decided, not the behavioural property: passing does not prove the property",
+				"functions are identified by package, receiver and name as anchored in properties.jsonl; a renamed anchor yields 'undecided' (exit 1), never a silent pass"}
 			r.Analysed["packages"] = len(p.Pkgs)
 			r.Analysed["functions_with_bodies"] = len(p.NexusFuncs)
 			defer func() {
